@@ -73,6 +73,7 @@ type client struct {
 
 	createFailed bool
 	usedEmpty    bool
+	sawMissing   bool
 }
 
 func (c *client) value() (v []byte, isNil bool) {
@@ -167,6 +168,7 @@ func (c *client) do(op string, old ctlog.LockedCheckpoint, new []byte, newNil bo
 				ret.Res, ret.Err = "error", "nil checkpoint without error"
 			case errors.Is(err, ctlog.ErrLogNotFound):
 				ret.Res, ret.Err = "notfound", err.Error()
+				c.sawMissing = true
 			default:
 				ret.Res, ret.Err = classifyErr(err, c.cfg.HTTP), err.Error()
 			}
@@ -225,7 +227,7 @@ func (c *client) run() {
 		case n == 0 && c.cfg.FirstOps == "fetch":
 			c.do("fetch", nil, nil, false)
 		case len(c.held) == 0:
-			if x < 0.5 || c.createFailed {
+			if (x < 0.5 && !c.sawMissing) || (x < 0.15 && c.sawMissing) || c.createFailed {
 				c.do("fetch", nil, nil, false)
 			} else {
 				v, isNil := c.value()
